@@ -14,18 +14,18 @@ Lemma in_sarifs s : In s sarifs. Proof. destruct s; simpl; auto. Qed.
 Definition all_worlds : list world :=
   flat_map (fun a => flat_map (fun bw => flat_map (fun bl => flat_map (fun d => flat_map (fun s =>
   flat_map (fun m1 => flat_map (fun m2 => flat_map (fun m3 => flat_map (fun m4 => flat_map (fun ai =>
-  flat_map (fun o => map (fun wr =>
+  flat_map (fun o => flat_map (fun wr => map (fun wp =>
     {| w_argparse := a; w_bad_workers := negb bw; w_bad_line := negb bl; w_dir_exists := d; w_sarif := s;
        w_miss_issues := negb m1; w_miss_hotspots := negb m2; w_miss_dd := negb m3; w_miss_contrast := negb m4;
-       w_ai_consistent := ai; w_output := o; w_write_ok := wr |})
-  bools) bools) bools) bools) bools) bools) bools) sarifs) bools) bools) bools) argparses.
+       w_ai_consistent := ai; w_output := o; w_write_ok := wr; w_write_partial := negb wp |})
+  bools) bools) bools) bools) bools) bools) bools) bools) sarifs) bools) bools) bools) argparses.
 
 Lemma negb_negb_in b : exists b', In b' bools /\ negb b' = b.
 Proof. exists (negb b). split; [apply in_bools | apply negb_involutive]. Qed.
 
 Lemma all_worlds_complete : forall w, In w all_worlds.
 Proof.
-  intros [a bw bl d s m1 m2 m3 m4 ai o wr]. unfold all_worlds.
+  intros [a bw bl d s m1 m2 m3 m4 ai o wr wp]. unfold all_worlds.
   apply in_flat_map. exists a. split; [apply in_argparses|].
   apply in_flat_map. exists (negb bw). split; [apply in_bools|].
   apply in_flat_map. exists (negb bl). split; [apply in_bools|].
@@ -37,21 +37,11 @@ Proof.
   apply in_flat_map. exists (negb m4). split; [apply in_bools|].
   apply in_flat_map. exists ai. split; [apply in_bools|].
   apply in_flat_map. exists o. split; [apply in_bools|].
-  apply in_map_iff. exists wr. split; [|apply in_bools].
+  apply in_flat_map. exists wr. split; [apply in_bools|].
+  apply in_map_iff. exists (negb wp). split; [|apply in_bools].
   now rewrite !negb_involutive.
 Qed.
 
-Definition outcome_eqb (a b : outcome) : bool :=
-  match a, b with
-  | Exit x r, Exit y s => Z.eqb x y && Bool.eqb r s
-  | Crash, Crash => true
-  | _, _ => false
-  end.
-Lemma outcome_eqb_eq a b : outcome_eqb a b = true <-> a = b.
-Proof.
-  destruct a as [x r|], b as [y s|]; simpl; try (split; congruence).
-  rewrite andb_true_iff, Z.eqb_eq, eqb_true_iff. split; [intros [-> ->]; reflexivity | intros H; injection H; auto].
-Qed.
 
 (** generic sweep: a decidable property of worlds holds of all worlds in [scope], or the sweep returns a counterexample *)
 Definition counterexamples (scope ok : world -> bool) : list world :=
@@ -74,39 +64,50 @@ Proof.
 Qed.
 
 (** ** the exit table *)
+(** the outcome is the documented status, and a complete report is there iff one is due *)
+Definition conforms (w : world) (o : outcome) : Prop :=
+  exists r, o = Exit (documented w) r /\ report_conforms w r = true.
 Definition agrees (T : exit_tables) (w : world) : bool :=
-  outcome_eqb (run_exit T w) (Exit (documented w) (report_expected w)).
+  match run_exit T w with Exit z r => Z.eqb z (documented w) && report_conforms w r | Crash => false end.
+Lemma agrees_conforms T w : agrees T w = true <-> conforms w (run_exit T w).
+Proof.
+  unfold agrees, conforms. destruct (run_exit T w) as [z r|].
+  - rewrite andb_true_iff, Z.eqb_eq. split.
+    + intros [-> H]. now exists r.
+    + intros (r' & E & H). injection E as -> ->. auto.
+  - split; [discriminate|]. intros (r & E & _). discriminate.
+Qed.
 Definition exit_counterexamples (T : exit_tables) : list world := counterexamples in_scope (agrees T).
 
 Definition exit_table_statement (T : exit_tables) : Prop :=
   match exit_counterexamples T with
-  | [] => forall w, in_scope w = true -> run_exit T w = Exit (documented w) (report_expected w)
-  | w0 :: _ => in_scope w0 = true /\ run_exit T w0 <> Exit (documented w0) (report_expected w0)
+  | [] => forall w, in_scope w = true -> conforms w (run_exit T w)
+  | w0 :: _ => in_scope w0 = true /\ ~ conforms w0 (run_exit T w0)
   end.
 Lemma exit_table_all T : exit_table_statement T.
 Proof.
   unfold exit_table_statement, exit_counterexamples. pose proof (sweep in_scope (agrees T)) as H.
   destruct (counterexamples in_scope (agrees T)) as [|w0 r].
-  - intros w Hs. apply outcome_eqb_eq. now apply H.
-  - destruct H as [H1 H2]. split; [exact H1|]. intros E. apply outcome_eqb_eq in E. unfold agrees in H2. congruence.
+  - intros w Hs. apply agrees_conforms. now apply H.
+  - destruct H as [H1 H2]. split; [exact H1|]. intros E. apply agrees_conforms in E. congruence.
 Qed.
 
 (** ** a non-zero status is never returned for a run whose report was written *)
 Definition report_rule_ok (T : exit_tables) (w : world) : bool :=
-  match run_exit T w with Exit z true => Z.eqb z 0 | _ => true end.
+  match run_exit T w with Exit z RFull => Z.eqb z 0 | _ => true end.
 Definition report_counterexamples (T : exit_tables) : list world := counterexamples (fun _ => true) (report_rule_ok T).
 Definition nonzero_no_report_statement (T : exit_tables) : Prop :=
   match report_counterexamples T with
-  | [] => forall w z r, run_exit T w = Exit z r -> z <> 0%Z -> r = false
-  | w0 :: _ => exists z, run_exit T w0 = Exit z true /\ z <> 0%Z
+  | [] => forall w z r, run_exit T w = Exit z r -> z <> 0%Z -> r <> RFull
+  | w0 :: _ => exists z, run_exit T w0 = Exit z RFull /\ z <> 0%Z
   end.
 Lemma nonzero_no_report_all T : nonzero_no_report_statement T.
 Proof.
   unfold nonzero_no_report_statement, report_counterexamples. pose proof (sweep (fun _ => true) (report_rule_ok T)) as H.
   destruct (counterexamples (fun _ => true) (report_rule_ok T)) as [|w0 r0].
   - intros w z r E Hz. specialize (H w eq_refl). unfold report_rule_ok in H. rewrite E in H.
-    destruct r; [|reflexivity]. apply Z.eqb_eq in H. contradiction.
-  - destruct H as [_ H]. unfold report_rule_ok in H. destruct (run_exit T w0) as [z [|]|]; try discriminate.
+    destruct r; try discriminate. apply Z.eqb_eq in H. contradiction.
+  - destruct H as [_ H]. unfold report_rule_ok in H. destruct (run_exit T w0) as [z [| |]|]; try discriminate.
     exists z. split; [reflexivity|]. now apply Z.eqb_neq.
 Qed.
 
@@ -134,7 +135,7 @@ Qed.
 Definition nominal : world :=
   {| w_argparse := Args; w_bad_workers := false; w_bad_line := false; w_dir_exists := true; w_sarif := SarifOk;
      w_miss_issues := false; w_miss_hotspots := false; w_miss_dd := false; w_miss_contrast := false;
-     w_ai_consistent := true; w_output := true; w_write_ok := true |}.
+     w_ai_consistent := true; w_output := true; w_write_ok := true; w_write_partial := false |}.
 
 Lemma documented_order :
   (* arguments are judged before anything on disk is consulted *)
@@ -158,11 +159,11 @@ Proof.
   split; [|split; [|split; [|split]]].
   - intros w H. unfold documented. now rewrite H.
   - intros w H. unfold documented. now rewrite H.
-  - intros [a bw bl d s m1 m2 m3 m4 ai o wr]; simpl. intros -> -> ->.
+  - intros [a bw bl d s m1 m2 m3 m4 ai o wr wp]; simpl. intros -> -> ->.
     destruct d, s, m1, m2, m3, m4; simpl; intuition congruence.
-  - intros [a bw bl d s m1 m2 m3 m4 ai o wr]; simpl. intros Ha Hbw Hbl Hd Hs H1 H2 H3 H4 Hai. subst.
+  - intros [a bw bl d s m1 m2 m3 m4 ai o wr wp]; simpl. intros Ha Hbw Hbl Hd Hs H1 H2 H3 H4 Hai. subst.
     destruct s; simpl in *; try discriminate; reflexivity.
-  - intros [a bw bl d s m1 m2 m3 m4 ai o wr]; simpl. split.
+  - intros [a bw bl d s m1 m2 m3 m4 ai o wr wp]; simpl. split.
     + destruct a; simpl; try discriminate; destruct bw; simpl; try discriminate; destruct bl; simpl; try discriminate;
       destruct d; simpl; try discriminate; destruct s; simpl; try discriminate;
       destruct m1; simpl; try discriminate; destruct m2; simpl; try discriminate; destruct m3; simpl; try discriminate;
@@ -178,23 +179,28 @@ Definition mkT (chain : list (guard_id * Z)) (used : bool) (code : Z) (groups : 
 Definition w_unwritable : world :=
   {| w_argparse := Args; w_bad_workers := false; w_bad_line := false; w_dir_exists := true; w_sarif := SarifOk;
      w_miss_issues := false; w_miss_hotspots := false; w_miss_dd := false; w_miss_contrast := false;
-     w_ai_consistent := true; w_output := true; w_write_ok := false |}.
+     w_ai_consistent := true; w_output := true; w_write_ok := false; w_write_partial := false |}.
+(** open() succeeds, the write does not (disk full): a truncated file stays behind *)
+Definition w_partial : world :=
+  {| w_argparse := Args; w_bad_workers := false; w_bad_line := false; w_dir_exists := true; w_sarif := SarifOk;
+     w_miss_issues := false; w_miss_hotspots := false; w_miss_dd := false; w_miss_contrast := false;
+     w_ai_consistent := true; w_output := true; w_write_ok := false; w_write_partial := true |}.
 Definition w_contrast_missing : world :=
   {| w_argparse := Args; w_bad_workers := false; w_bad_line := false; w_dir_exists := true; w_sarif := SarifOk;
      w_miss_issues := false; w_miss_hotspots := false; w_miss_dd := false; w_miss_contrast := true;
-     w_ai_consistent := true; w_output := true; w_write_ok := true |}.
+     w_ai_consistent := true; w_output := true; w_write_ok := true; w_write_partial := false |}.
 Definition w_workers : world :=
   {| w_argparse := Args; w_bad_workers := true; w_bad_line := false; w_dir_exists := true; w_sarif := SarifOk;
      w_miss_issues := false; w_miss_hotspots := false; w_miss_dd := false; w_miss_contrast := false;
-     w_ai_consistent := true; w_output := true; w_write_ok := true |}.
+     w_ai_consistent := true; w_output := true; w_write_ok := true; w_write_partial := false |}.
 Definition w_line : world :=
   {| w_argparse := Args; w_bad_workers := false; w_bad_line := true; w_dir_exists := true; w_sarif := SarifOk;
      w_miss_issues := false; w_miss_hotspots := false; w_miss_dd := false; w_miss_contrast := false;
-     w_ai_consistent := true; w_output := true; w_write_ok := true |}.
+     w_ai_consistent := true; w_output := true; w_write_ok := true; w_write_partial := false |}.
 Definition w_malformed : world :=
   {| w_argparse := Args; w_bad_workers := false; w_bad_line := false; w_dir_exists := true; w_sarif := SarifMalformed;
      w_miss_issues := false; w_miss_hotspots := false; w_miss_dd := false; w_miss_contrast := false;
-     w_ai_consistent := true; w_output := true; w_write_ok := true |}.
+     w_ai_consistent := true; w_output := true; w_write_ok := true; w_write_partial := false |}.
 
 Lemma no_missing_groups w groups :
   w_miss_issues w = false -> w_miss_hotspots w = false -> w_miss_dd w = false ->
@@ -210,22 +216,20 @@ Proof.
 Qed.
 
 (** pinned form: the status of write_report is dropped, an unwritable --output ends with status 0 *)
-Lemma unwritable_dropped chain code groups validated :
-  run_exit (mkT chain false code groups validated) w_unwritable
-  <> Exit (documented w_unwritable) (report_expected w_unwritable).
+Lemma unwritable_dropped chain code groups validated : forall r,
+  run_exit (mkT chain false code groups validated) w_unwritable <> Exit (documented w_unwritable) r.
 Proof.
-  unfold run_exit, mkT; simpl. rewrite andb_false_r.
+  intros r. unfold run_exit, mkT; simpl. rewrite andb_false_r.
   destruct (chain_canonical chain); [|discriminate].
   unfold run_body; simpl. rewrite (no_missing_groups w_unwritable groups) by (auto; now left). simpl. discriminate.
 Qed.
 
 (** a missing --contrast-vulnerabilities-xml file is not looked at unless its list reaches the existence loop *)
 Lemma contrast_unchecked chain used code groups validated :
-  existsb (group_eqb GrContrast) groups = false ->
-  run_exit (mkT chain used code groups validated) w_contrast_missing
-  <> Exit (documented w_contrast_missing) (report_expected w_contrast_missing).
+  existsb (group_eqb GrContrast) groups = false -> forall r,
+  run_exit (mkT chain used code groups validated) w_contrast_missing <> Exit (documented w_contrast_missing) r.
 Proof.
-  intros Hg. unfold run_exit, mkT; simpl. rewrite andb_false_r.
+  intros Hg r. unfold run_exit, mkT; simpl. rewrite andb_false_r.
   destruct (chain_canonical chain); [|discriminate].
   unfold run_body; simpl. rewrite (no_missing_groups w_contrast_missing groups) by (auto; now right). simpl. discriminate.
 Qed.
@@ -245,4 +249,13 @@ Proof.
   destruct (chain_canonical chain); [|split; reflexivity].
   unfold run_body; simpl. split; [|reflexivity].
   now rewrite (no_missing_groups w_line groups) by (auto; now left).
+Qed.
+
+(** pinned form on a partial write: status 0 while only a truncated file exists *)
+Lemma partial_dropped chain code groups validated :
+  chain_canonical chain = true ->
+  run_exit (mkT chain false code groups validated) w_partial = Exit 0 RPartial.
+Proof.
+  intros Hc. unfold run_exit, mkT; simpl. rewrite andb_false_r, Hc.
+  unfold run_body; simpl. now rewrite (no_missing_groups w_partial groups) by (auto; now left).
 Qed.
